@@ -524,6 +524,39 @@ def txn_after_get_case(rng, i):
     return mk("http", b1, "txn-after-get", get=rng.choice(["entities", "changes"]), getfirst=(i % 4 != 3), body2=b2, body2txn=True)
 
 
+A_NS = "http://ex.org/a/"   # ns3 in the driver's stores
+BAD_MEMBERS = [("refs", None), ("refs", "absent"), ("props", "absent"), ("id", "absent"), ("refs", "x"), ("props", [1]), ("id", 5),
+               ("refs", [1]), ("props", None)]
+
+
+def asentity_case(rng, i):
+    """entities built the way the JavaScript API builds them: AsEntity -> NewEntityFromMap on plain maps - complete ones and maps
+    lacking refs / props / id or with wrongly typed members -, emitted directly or attached as a property of another entity,
+    stored, served as JSON and parsed back; a map that is not an entity yields nothing (a null property is dropped)"""
+    maps, expect = [], []
+    for k in range(rng.range(1, 4)):
+        m = {"id": "ns3:m%d_%d" % (i, k), "props": {"ns3:street": "Evergreen %d" % k, "ns3:no": k, "ns3:tags": ["a", [k]]},
+             "refs": ({"ns3:in": "ns3:town"} if rng.chance(1, 2) else {})}
+        complete = True
+        if rng.chance(3, 5):
+            name, val = rng.choice(BAD_MEMBERS)
+            complete = False
+            if val == "absent":
+                del m[name]
+            else:
+                m[name] = val
+        carrier = "ns3:c%d_%d" % (i, k) if rng.chance(1, 2) else ""
+        maps.append({"m": m, "carrier": carrier})
+        if carrier:
+            expect.append({"id": carrier, "props": ({"ns3:address": m} if complete else {})})
+        elif complete:
+            expect.append(m)
+    ctx = {"id": "@context", "namespaces": {"ns3": A_NS}}
+    b1 = "[" + json.dumps(ctx) + ',{"id":"ns3:base%d","props":{"ns3:n":%d}}]' % (i, i)
+    b2 = "[" + ",".join(json.dumps(x) for x in [ctx] + expect) + "]"
+    return mk("http", b1, "asentity", get=rng.choice(["entities", "changes"]), body2=b2, asentity=maps)
+
+
 def restart_case(rng, i):
     """POST a payload that introduces NEW namespaces, restart the hub, (POST a payload with ANOTHER new namespace,) GET, parse back"""
     n1 = "http://new%d.org/r/" % rng.range(1, 99)
@@ -722,6 +755,14 @@ def witness_cases():
            "w-txn-after-get", get="entities", getfirst=True, body2txn=True,
            body2='{"@context":{"id":"@context","namespaces":{"a":"http://ex.org/a/","t":"http://example.org/never-seen/"}},'
                  '"ds":[{"id":"t:lisa","props":{"t:name":"Lisa"}}]}'),
+        # entities built through the JavaScript API (AsEntity / NewEntityFromMap): a map without refs is not an entity
+        mk("http", '[{"id":"@context","namespaces":{"ns3":"http://ex.org/a/"}},{"id":"ns3:base","props":{"ns3:n":1}}]', "w-asentity",
+           get="entities",
+           body2='[{"id":"@context","namespaces":{"ns3":"http://ex.org/a/"}},{"id":"ns3:homer","props":{}},'
+                 '{"id":"ns3:ok","props":{"ns3:street":"x"},"refs":{}}]',
+           asentity=[{"m": {"id": "ns3:home", "props": {"ns3:street": "Evergreen"}}, "carrier": "ns3:homer"},
+                     {"m": {"id": "ns3:loose", "props": {"ns3:street": "y"}}, "carrier": ""},
+                     {"m": {"id": "ns3:ok", "props": {"ns3:street": "x"}, "refs": {}}, "carrier": ""}]),
         # fine
         S('{"id":"a:1","props":{"a:n":"x","k":[1,true,{"id":"z"}],"nul":null},"refs":{"a:r":"a:2","rr":["http://o/x#y","b"]},'
           '"deleted":true,"recorded":12}, {"id":"@continuation","token":"abc"}', "w-ok"),
@@ -782,6 +823,8 @@ def gen(rng, tier):
         out.append(repost_case(rng, i))
     for i in range(n_restart):
         out.append(txn_after_get_case(rng, i))
+    for i in range(n_restart + n_restart // 2):
+        out.append(asentity_case(rng, i))
     for i in range(n_source):
         out.append(source_case(rng, g, i))
     for i in range(n_txn):
